@@ -125,3 +125,36 @@ theorem evaluate_or_rank_bits (a b c d e : Nat) :
     Src.evaluate.or_rank_bits [a, b, c, d, e] = some (evaluateOrRankBits [a, b, c, d, e]) := rfl
 
 end Tie
+
+/-! ## axiom audit (written by tools/tie.py --audit) -/
+#print axioms Tie.anyM_pure
+#print axioms Tie.Five_are_unique
+#print axioms Tie.is_corrupt_any
+#print axioms Tie.Five_is_corrupt
+#print axioms Tie.Six_is_corrupt
+#print axioms Tie.Seven_is_corrupt
+#print axioms Tie.Two_is_corrupt
+#print axioms Tie.Three_is_corrupt
+#print axioms Tie.Four_is_corrupt
+#print axioms Tie.contain_blank_any
+#print axioms Tie.Five_contain_blank
+#print axioms Tie.Six_contain_blank
+#print axioms Tie.Seven_contain_blank
+#print axioms Tie.sortAsc_reverse
+#print axioms Tie.Five_sort_in_place
+#print axioms Tie.Five_sort
+#print axioms Tie.Six_sort
+#print axioms Tie.Seven_sort
+#print axioms Tie.Two_sort
+#print axioms Tie.Three_sort
+#print axioms Tie.Four_sort
+#print axioms Tie.scan_loop
+#print axioms Tie.Six_are_unique
+#print axioms Tie.Seven_are_unique
+#print axioms Tie.Five_is_valid
+#print axioms Tie.Six_is_valid
+#print axioms Tie.Seven_is_valid
+#print axioms Tie.Five_hand_rank_value_validated
+#print axioms Tie.evaluate_five_cards
+#print axioms Tie.evaluate_is_flush
+#print axioms Tie.evaluate_or_rank_bits
